@@ -110,8 +110,14 @@ Restart == /\ status = "Down"
            /\ fresh' = {} /\ UNCHANGED <<pc, wr, woff, acked, crashes>>
            /\ H("restart", 0, 0, 0)
 
+\* A start that is cancelled while it replays (the stop signal of an operator reaches the context of FracManager.Load;
+\* Active.Replay polls it once per meta block): Replay returns before its clean-up (truncateToReplayed), nothing on
+\* disk changes and the store stays down - a stuttering step of this specification, named because the code has it.
+\* The replay driver precedes every second Restart with one (cancelled after 0, 1 or 2 meta blocks).
+AbortedStart == status = "Down" /\ UNCHANGED vars
+
 Next == \/ \E b \in Bulks : Begin(b) \/ WriteDocs(b) \/ SyncDocs(b) \/ WriteMeta(b) \/ SyncMeta(b) \/ Unlock(b) \/ Ack(b)
-        \/ Crash \/ Restart
+        \/ Crash \/ Restart \/ AbortedStart
 Spec == Init /\ [][Next]_vars
 
 \* ---------------------------------------------------------------- properties (C01)
